@@ -439,6 +439,66 @@ theorem exCfg_image (sp : Bool) (mn : Nat) (h : 0 < mn) : ImageCfg (exCfg sp mn)
   simp [exCfg] at hm
   rcases hm with ⟨rfl, _⟩ | ⟨rfl, _⟩ | ⟨rfl, _⟩ <;> decide
 
+/-- the stock `cmark` rule chains (block and inline, in the order of `Props/Pipeline.lean: exCfg`)
+    with the SHIPPED tables: the entity table of the `entities` crate, the case tables of the linked
+    Rust std; any `max_nesting > 0`, `sourcepos`, `lang_prefix`, emphasis nodes -/
+structure StockCfg (cfg : DocCfg) : Prop where
+  nest : 0 < cfg.maxNesting
+  block : cfg.blockChain = (exCfg true 1).blockChain
+  inline : cfg.inlineChain = (exCfg true 1).inlineChain
+  entity : cfg.entity = Entity.tableLookup
+  L : cfg.L = Refs.Lt
+  U : cfg.U = Refs.Ut
+
+/-- **C12, context agreement for the stock configuration with the shipped tables**: no hypothesis
+    left but `R` being a valid reference of the shipped table / numeric reference / escape -/
+theorem stock_contexts_agree (cfg : DocCfg) (hs : StockCfg cfg) (R X : List Char)
+    (h : Denotes Entity.tableLookup R X) :
+    (∃ t, parseDoc cfg ('a' :: (R ++ ['b'])) = .ok t ∧ docAlt t = 'a' :: (X ++ ['b'])) ∧
+    (∃ t, parseDoc cfg ('[' :: 'x' :: ']' :: '(' :: '<' :: '/' :: (R ++ ['>', ')'])) = .ok t ∧
+      IsLinkDoc t (Link.normalizeLink (Link.utf8 ('/' :: X))) none ['x']) ∧
+    (∃ t, parseDoc cfg ('[' :: 'x' :: ']' :: '(' :: '/' :: 'u' :: ' ' :: '"' :: (R ++ ['"', ')'])) = .ok t ∧
+      IsLinkDoc t [47, 117] (some X) ['x']) ∧
+    (∃ t, parseDoc cfg ('[' :: 'k' :: ']' :: ':' :: ' ' :: '<' :: '/' ::
+        (R ++ '>' :: ' ' :: '"' :: (R ++ ['"', '\n', '\n', '[', 'k', ']']))) = .ok t ∧
+      IsLinkDoc t (Link.normalizeLink (Link.utf8 ('/' :: X))) (some X) ['k']) ∧
+    (∃ t f, parseDoc cfg ('~' :: '~' :: '~' :: ' ' :: R) = .ok t ∧ t.children = [f] ∧
+      f.kind = .blk (.codeFence (' ' :: R) '~' 3 []) ∧
+      Entity.unescapeAll cfg.entity (' ' :: R) = ' ' :: X) := by
+  have hemph : ∀ mk csw, Inline.RuleId.emph mk csw ∈ cfg.inlineChain → mk = '*' ∨ mk = '_' ∨ mk = '~' := by
+    intro mk csw hm
+    rw [hs.inline] at hm
+    simp [exCfg] at hm
+    rcases hm with ⟨rfl, _⟩ | ⟨rfl, _⟩ | ⟨rfl, _⟩ <;> simp
+  have ha : AgreeCfg cfg := by
+    refine ⟨⟨hs.nest, by rw [hs.block]; decide, ⟨by rw [hs.inline]; decide, by rw [hs.inline]; decide, ?_⟩⟩,
+      by rw [hs.inline]; decide, ?_⟩
+    · intro mk csw hm; rcases hemph mk csw hm with rfl | rfl | rfl <;> decide
+    · intro mk csw hm; rcases hemph mk csw hm with rfl | rfl | rfl <;> decide
+  have hf : FenceCfg cfg :=
+    ⟨hs.nest, [.code], [.blockquote, .hr, .list, .reference, .heading, .lheading, .paragraph],
+      by rw [hs.block]; rfl, by decide, by decide⟩
+  have hd : DefCfg cfg := by
+    refine ⟨⟨hs.nest, by rw [hs.block]; decide, ⟨by rw [hs.inline]; decide, by rw [hs.inline]; decide, ?_⟩⟩,
+      ⟨[.code, .fence, .blockquote, .hr, .list], [.heading, .lheading, .paragraph], by rw [hs.block]; rfl,
+        by decide, by decide⟩, ?_, ?_⟩
+    · intro mk csw hm; rcases hemph mk csw hm with rfl | rfl | rfl <;> decide
+    · rw [hs.L, hs.U]; decide +kernel
+    · rw [hs.L, hs.U]; exact Refs.table_normalize_idem _
+  exact contexts_agree cfg ha hf hd R X (hs.entity ▸ h) (by rw [hs.entity]; exact Entity.table_no_hash)
+
+/-- the stock configuration with the shipped tables -/
+def stockEx : DocCfg := { exCfg true 100 with entity := Entity.tableLookup, L := Refs.Lt, U := Refs.Ut }
+
+theorem stockEx_stock : StockCfg stockEx := ⟨by decide, rfl, rfl, rfl, rfl, rfl⟩
+
+/-- `&quot;` — the prime candidate for an exception inside a `"`-quoted title — denotes `"` in the
+    shipped table, and the theorem gives the title `"` (and `"` in the four other contexts) -/
+example : ∃ t, parseDoc stockEx "[x](/u \"&quot;\")".toList = .ok t ∧ IsLinkDoc t [47, 117] (some ['"']) ['x'] := by
+  have h := stock_contexts_agree stockEx stockEx_stock "&quot;".toList ['"']
+    (.named "quot".toList ['"'] (by decide) (by decide +kernel))
+  exact h.2.2.1
+
 /-- the key conditions of `DefCfg` hold for the case tables of the linked Rust std -/
 theorem realTables_key :
     (Refs.normalize Refs.Lt Refs.Ut [107]).isEmpty = false ∧
@@ -499,19 +559,19 @@ example : (parseDoc (exCfg false 100) "[x](</&#32;&#10;>)".toList).toOption.map 
 /-- the other forms: `'…'` and `(…)` titles with the escapes of their own delimiters, the bare
     destination with `\(` `\)` (no effect on the parenthesis count) and a reference to a blank.
     (Real crate: titles `'`, `)`, `(`; hrefs `/()`, `/%20`.) -/
-example : (parseDoc (exCfg false 100) "[x](/u '\'&#39;')".toList).toOption.map linksOf =
+example : (parseDoc (exCfg false 100) "[x](/u '\\'&#39;')".toList).toOption.map linksOf =
     some [("/u".toList.map Char.toNat, some "''".toList)] := by decide +kernel
-example : (parseDoc (exCfg false 100) "[x](/u (\)\(&#40;))".toList).toOption.map linksOf =
+example : (parseDoc (exCfg false 100) "[x](/u (\\)\\(&#40;))".toList).toOption.map linksOf =
     some [("/u".toList.map Char.toNat, some ")((".toList)] := by decide +kernel
-example : (parseDoc (exCfg false 100) "[x](/\(\)&#32;)".toList).toOption.map linksOf =
+example : (parseDoc (exCfg false 100) "[x](/\\(\\)&#32;)".toList).toOption.map linksOf =
     some [("/()%20".toList.map Char.toNat, none)] := by decide +kernel
 
 /-- through the theorems: the `(…)` title with `R = \)`, the bare destination with `R = \(` -/
-example (sp : Bool) : ∃ t, parseDoc (exCfg sp 100) "[x](/u (\)))".toList = .ok t ∧
+example (sp : Bool) : ∃ t, parseDoc (exCfg sp 100) "[x](/u (\\)))".toList = .ok t ∧
     IsLinkDoc t [47, 117] (some [')']) ['x'] :=
   reference_in_title_any _ (exCfg_link sp 100 (by decide)) _ _ (.escape ')' (by decide))
     (exCfg_no_hash sp 100) '(' ')' (.inr (.inr ⟨rfl, rfl⟩))
-example (sp : Bool) : ∃ t, parseDoc (exCfg sp 100) "[x](/\()".toList = .ok t ∧
+example (sp : Bool) : ∃ t, parseDoc (exCfg sp 100) "[x](/\\()".toList = .ok t ∧
     linksOf t = [("/(".toList.map Char.toNat, none)] := by
   obtain ⟨t, h1, h2⟩ := reference_in_bare_destination _ (exCfg_link sp 100 (by decide)) _ _
     (.escape '(' (by decide)) (exCfg_no_hash sp 100)
